@@ -35,11 +35,9 @@ EXEMPT: dict[tuple[str, str], str] = {
     ("RenderContext.get", "assert isinstance(root, str)"): "the root segment of a parsed path is always a string (lexer WORD or quoted segment)",
     ("RenderContext.get_async", "assert isinstance(root, str)"): "the root segment of a parsed path is always a string",
     ("_segments_str", "next(it)"): "called with path[: i + 2] where i >= 0: at least two segments",
+    ("_segments_str", "str() of next(it)"): "the first segment of a parsed path is its root, always a str (asserted in RenderContext.get)",
     ("RenderContext.get_item", "next(itertools.islice(obj.items(), 1))"): "guarded by `isinstance(obj, Mapping) and obj`: the mapping is non-empty",
     ("RenderContext.get_item_async", "next(itertools.islice(obj.items(), 1))"): "guarded by `isinstance(obj, Mapping) and obj`: the mapping is non-empty",
-    ("RenderContext.get_item", "islice(obj.items())"): "constant stop argument 1",
-    ("RenderContext.get_item_async", "islice(obj.items())"): "constant stop argument 1",
-    ("first", "islice(obj.items())"): "constant stop argument 1",
     ("Path.head", "self.path[0]"): "a Path always has a root segment (constructed from a PathToken / WORD)",
     ("_analyze_variables", "var.segments[0]"): "segments of a Path always include the root",
     ("_build_block_stacks", "assert base"): "called from ExtendsNode.render with the template that contains this extends node: the first walk step returns its parent or raises",
@@ -53,7 +51,15 @@ EXEMPT: dict[tuple[str, str], str] = {
     ("Unit.__call__", "assert isinstance(_length, str)"): "guarded by the membership test against three string constants just above",
     ("LambdaExpression.parse", "assert token.type_ == TokenType.LPAREN"): "callers dispatch on LPAREN before calling parse",
     ("parse_infix_expression", "assert token is not None"): "TokenStream.next never returns None (returns the EOI token)",
-    ("Lexer.accept_range", "assert is_token_type(rparen, TokenType.RPAREN)"): "called only when the token just appended is RPAREN",
+    ("Lexer.accept_range", "assert is_token_type(rparen, TokenType.RPAREN)"): "C02.R4: the only call site sits under `kind == 'RPAREN'` right after the token was appended to the list that is passed",
+    ("Lexer.accept_path", "self.path_stack.pop()"): "accept_path appends a PathToken before its loop and this pop sits in the else branch of `len(self.path_stack) == 1`: at least two entries",
+    ("Lexer.accept_token", "self.path_stack.pop()"): "directly after self.accept_path(), which appends one PathToken and pops only entries pushed by nested brackets (guarded by len == 1): at least one entry remains",
+    ("ReadOnlyChainMap.pop", "self._maps.popleft()"): "push/pop are paired (RenderContext.extend pushes before its try and pops in the finally; C07.R2 checks every push has exactly one pop) and the four base maps are never popped",
+    ("to_liquid_string", "escape() of val"): "every branch above leaves a str (or an object with __html__, whose own code is outside the property) in val; escape(str) cannot raise",
+    ("_to_liquid_string", "escape() of val"): "every branch above leaves a str (or an object with __html__) in val; escape(str) cannot raise",
+    ("_analyze.<locals>._visit", "str() of partial.name.evaluate(static_context)"): "the static context carries no data: a partial name evaluates to a parsed string literal or an Undefined",
+    ("_analyze_async.<locals>._visit", "str() of partial.name.evaluate(static_context)"): "the static context carries no data: a partial name evaluates to a parsed string literal or an Undefined",
+    ("RenderNode.children_async", "str() of name"): "RenderTag.parse accepts only a string literal as the template name",
     ("Lexer.accept_token", "assert kind is not None"): "every alternative of TOKEN_RULES is a named group",
     ("Lexer.lex_markup", "assert self.pos == len(self.source)"): "the CONTENT rule `.+?(?=…|$)` with DOTALL matches any non-empty remainder",
     ("Lexer.accept_path", "self.path_stack[-1]"): "accept_path pushes a PathToken before its loop; nested pops are guarded by len(self.path_stack) == 1",
@@ -77,12 +83,10 @@ EXEMPT: dict[tuple[str, str], str] = {
     ("extract_from_templates", "message[0]"): "message is built from a non-empty spec of equal length to messages",
 }
 
-# exemptions that hold only while the named guard statements are present in the same function
-GUARDED_EXEMPT: dict[tuple[str, str], tuple[list[str], str]] = {
-    ("LoopExpression._slice", "islice(it)"): (
-        ["offset = max(offset, 0)", "length = min(length, max(limit, 0))", "length = max(length - offset, 0)"],
-        "offset and limit are clamped to >= 0 and length is a max(…, 0): islice never sees a negative bound",
-    ),
+# exemptions that hold only while a computed fact holds (see run(): C02.R2b)
+MESSAGE_EXEMPT: dict[tuple[str, str], str] = {
+    ("LiquidError.detailed_message", "f-string of self.message"): "C02.R2b: every LiquidError constructed in liquid2 receives a str, None or an exception object as its message",
+    ("LiquidError.detailed_message", "f-string of self._pointer_message()"): "C02.R2b: _pointer_message returns the message or a string constant",
 }
 
 # (caller qualname, call text) -> reason: escapes of the callee are not propagated through this one call
@@ -114,19 +118,15 @@ def run(prog: Program, res: Result) -> None:  # noqa: PLR0912, PLR0915
         "resolved callee not caught around the call; iterated to a fixpoint over the functions reachable from the entry "
         "points. Whatever non-LiquidError class reaches an entry point is reported with its call chain."
     )
-    res.not_decided += ["the time bound (termination / complexity) - only lexer resynchronisation is covered, under C17", "RecursionError (excluded by the property)", "exceptions raised inside user drops, loaders' own code and third-party libraries beyond the catalogued calls", "operations outside the catalogue (e.g. arbitrary arithmetic on Decimal values, attribute errors)"]
+    res.not_decided += ["the time bound (termination / complexity) - only lexer resynchronisation is covered, under C17", "RecursionError (excluded by the property)", "exceptions raised inside user drops, loaders' own code and third-party libraries beyond the catalogued calls", "operations outside the catalogue (e.g. arbitrary arithmetic on Decimal values, attribute errors)", "stringification / hashing of operands whose type the code does not declare (counted in stats.undeclared_operands)"]
     from sa.escape import CALL_CATALOGUE
     from sa.escape import METHOD_CATALOGUE
 
-    res.trusted_base += ["call catalogue: " + ", ".join(sorted(CALL_CATALOGUE)), "method catalogue: " + ", ".join(sorted(METHOD_CATALOGUE)), "operators: //, /, % (non-constant divisor; %-format on non-literal strings), constant-index subscripts, assert, explicit raise"]
+    res.trusted_base += ["call catalogue: " + ", ".join(sorted(CALL_CATALOGUE)), "method catalogue: " + ", ".join(sorted(METHOD_CATALOGUE)), "operators: //, /, % (non-constant divisor; %-format on non-literal strings), constant-index subscripts, assert, explicit raise", "typed sites (sa.types reads the declared annotations): str()/repr()/format()/f-string/%-format/escape()/Markup() of a value declared object/Any (or an int inside a filter function) -> ValueError (int/str digit limit); list.pop()/deque.popleft() without a proven non-empty receiver (sa.lenflow) -> IndexError; `x in y` with y not a str/list/tuple and x declared object/Any -> TypeError (unhashable); itertools.islice unless every bound is proven None or within [0, k*len] (sa.bounds)"]
     exempt = dict(EXEMPT)
-    for (q, what), (guards, reason) in GUARDED_EXEMPT.items():
-        f = next((x for x in prog.all_functions() if x.qualname == q), None)
-        if f is None:
-            continue
-        have = {norm(st, 200) for st in ast.walk(f.node) if isinstance(st, ast.stmt)}
-        if all(g in have for g in guards):
-            exempt[(q, what)] = reason + " (guards present: " + "; ".join(guards) + ")"
+    msg_ok, msg_sites, msg_bad = _message_types(prog)
+    if msg_ok:
+        exempt.update(MESSAGE_EXEMPT)
     E = Escapes(prog, exempt_sites=exempt, exempt_edges=EXEMPT_EDGES)
     roots = []
     for kind, eps in ENTRY_POINTS.items():
@@ -154,6 +154,15 @@ def run(prog: Program, res: Result) -> None:  # noqa: PLR0912, PLR0915
     # ------------------------------------------------------------------ R1 entry points
     res.rule("C02.R1", "no exception class outside LiquidError escapes a public parse / render / analysis / extraction entry point")
     res.rule("C02.R2", "str(err), err.detailed_message() and err.context() of every LiquidError reach no partial operation that can raise")
+    res.rule("C02.R2b", "every LiquidError (subclass) constructed inside liquid2 is given a str, None or an exception object as its message, so formatting the message cannot raise")
+    res.floor("C02.R2b", "LiquidError construction sites", msg_sites, 120)
+    if msg_ok:
+        res.ok("C02.R2b", "liquid2/exceptions.py LiquidError", "message arguments are str / None / exception objects", f"{msg_sites} construction sites")
+    for file, line, qual, text, ty in msg_bad:
+        res.fail("C02.R2b", file=file, line=line, qualname=qual, construct=f"message {text}", message=f"a LiquidError is constructed with a message declared `{ty}`: str(err) / detailed_message() formats it and an int beyond the digit limit raises ValueError there", what=f"{qual}: message `{text}` is a str")
+    res.stats["undeclared_operands"] = len(E.undeclared)
+    res.stats["undeclared_operand_samples"] = sorted(set(E.undeclared))[:40]
+    res.stats["islice_sites"] = [f"{a}: {b} -> {'bounded' if c else 'catalogued'}" for a, b, c in E.islice_checked]
     reported: set[tuple] = set()
     per_entry = 0
     for kind, f in roots + err_methods:
@@ -196,6 +205,40 @@ def run(prog: Program, res: Result) -> None:  # noqa: PLR0912, PLR0915
     live = {(fi.qualname, what) for fi in E.reachable.values() for _n, _e, what in _all_sites(E, fi)}
     stale = sorted(k for k in exempt if k not in live)
     res.stats["stale_exemptions"] = [f"{q}: {w}" for q, w in stale]
+
+    # ------------------------------------------------------------------ R4 caller-established preconditions
+    res.rule("C02.R4", "Lexer.accept_range is called only from accept_token, under `kind == 'RPAREN'`, with the expression list the token was just appended to (proven non-empty at the call by sa.lenflow)")
+    from sa.lenflow import LenFlow
+    from sa.util import cfg_node_of
+
+    lx = prog.cls("liquid2.lexer.Lexer")
+    ar_sites = []
+    for f in prog.all_functions():
+        for c in ast.walk(f.node):
+            if isinstance(c, ast.Call) and isinstance(c.func, ast.Attribute) and c.func.attr == "accept_range":
+                ar_sites.append((f, c))
+    res.floor("C02.R4", "accept_range call sites", len(ar_sites), 1)
+    for f, c in ar_sites:
+        what = f"{f.qualname}: accept_range({norm(c.args[0]) if c.args else ''}) receives a list ending in the RPAREN token"
+        problems = []
+        if f.cls is not lx or f.name != "accept_token":
+            problems.append("called from outside Lexer.accept_token")
+        if len(c.args) != 1 or not isinstance(c.args[0], ast.Name):
+            problems.append("the expression list is not passed as the single argument")
+        else:
+            lf = LenFlow(prog, f, E._cfg(f))
+            if lf.bound_before(c, c.args[0].id, cfg_node_of) < 1:
+                problems.append(f"`{c.args[0].id}` is not proven non-empty at the call")
+            guarded = any(isinstance(a, ast.If) and "kind == 'RPAREN'" in norm(a.test) and any(c is x for b in a.body for x in ast.walk(b)) for a in f.module.ancestors(c))
+            if not guarded:
+                problems.append("not under a `kind == 'RPAREN'` test")
+            appended = [x for x in ast.walk(f.node) if isinstance(x, ast.Call) and isinstance(x.func, ast.Attribute) and x.func.attr == "append" and isinstance(x.func.value, ast.Name) and x.func.value.id == c.args[0].id]
+            if not appended:
+                problems.append("the token is appended to a different list than the one passed")
+        if problems:
+            res.fail("C02.R4", file=f.file, line=c.lineno, qualname=f.qualname, construct=f"accept_range call: {'; '.join(problems)}", message=f"accept_range pops the closing parenthesis from its argument: {'; '.join(problems)} - pop from an empty list / AssertionError on malformed input", what=what)
+        else:
+            res.ok("C02.R4", f"{f.file}:{c.lineno} {f.qualname}", what, "non-empty, guarded by the token kind")
 
     # ------------------------------------------------------------------ R3 boundary converters
     res.rule("C02.R3", "Filter.evaluate[_async] wraps the dynamic filter call in a handler converting (TypeError, ValueError, ArithmeticError, LookupError) to LiquidTypeError; render_with_context converts stray LiquidInterrupts")
@@ -247,3 +290,35 @@ def run(prog: Program, res: Result) -> None:  # noqa: PLR0912, PLR0915
 
 def _all_sites(E: Escapes, fi):  # noqa: ANN001, ANN202
     return E.local_sites(fi)
+
+
+def _message_types(prog: Program):  # noqa: ANN202
+    """(all ok, number of sites, offending sites) for the first positional argument of every LiquidError construction."""
+    from sa.srcmodel import ClassInfo
+    from sa.types import TypeApprox
+
+    T = TypeApprox(prog)
+    le = prog.cls("liquid2.exceptions.LiquidError")
+    n = 0
+    bad = []
+    for fi in prog.all_functions():
+        for c in ast.walk(fi.node):
+            if not isinstance(c, ast.Call):
+                continue
+            d = ast.unparse(c.func)
+            if not d.replace(".", "").replace("_", "").isalnum():
+                continue
+            r = prog.resolve(fi.module, d)
+            if not (isinstance(r, ClassInfo) and prog.is_subclass(r, le)):
+                continue
+            n += 1
+            if not c.args or isinstance(c.args[0], ast.Starred):
+                continue
+            t = T.of(fi, c.args[0])
+            parts = {x.strip() for x in (t or "?").split("|")}
+            if parts <= {"str", "None", "Exception", "Markup"}:
+                continue
+            if t is None and isinstance(c.args[0], ast.Call) and "getattribute" in ast.unparse(c.args[0]):
+                continue  # StrictUndefined reads its own msg slot through object.__getattribute__
+            bad.append((fi.file, c.lineno, fi.qualname, ast.unparse(c.args[0])[:40], t))
+    return (not bad), n, bad
